@@ -373,9 +373,11 @@ def main():
         print(json.dumps(rp.get('failing_input') or rp.get('no_longer_checks'), indent=1)[:3000])
         r = run_shards(modname, prop, rp.get('tier', tier), rp.get('seed', seed), rp.get('scale', 1), rp.get('jobs', jobs), rp.get('searching', False))
         want = json.dumps((rp.get('failing_input') or {}).get('case'), sort_keys=True)
-        same = [f for f in r['oracle_failures'] if json.dumps(f.get('case'), sort_keys=True) == want]
-        print(f'replay: {len(r["oracle_failures"])} oracle failures ({len(same)} on the recorded input), {r["n_mismatches"]} correspondence mismatches')
-        if r['oracle_failures'] or r['n_mismatches']:
+        known_r = [k for k in load_known() if k.get('property') == prop]
+        fails = [f for f in r['oracle_failures'] if not any(match_known(k, f) for k in known_r)]
+        same = [f for f in fails if json.dumps(f.get('case'), sort_keys=True) == want]
+        print(f'replay: {len(fails)} unlisted oracle failures ({len(same)} on the recorded input; {len(r["oracle_failures"]) - len(fails)} known findings), {r["n_mismatches"]} correspondence mismatches')
+        if fails or r['n_mismatches']:
             print(f'VIOLATION property={prop} replay={a.replay}')
             sys.exit(1)
         sys.exit(0)
